@@ -1,2 +1,18 @@
-(* C07 — placeholder until the proofs land. *)
-From Goag Require Import Model.Json Spec.JsonSpec.
+(* C07 — encoded JSON conforms to the schema it was generated from. *)
+From Coq Require Import List ZArith.
+Import ListNotations.
+From Goag Require Import Base.Str Model.Params Model.Json Spec.JsonSpec
+     Proofs.JsonEncProofs Proofs.JsonRtProofs Proofs.JsonConfProofs.
+
+(* The JSON produced for any value of a schema-derived type validates against
+   that schema: required properties present, unset optionals omitted, null only
+   where nullable, property names the declared ones (each once), values of the
+   declared JSON types and formats, allOf members merged into one object, map
+   entries under their own keys and typed by additionalProperties. *)
+Theorem C07_conforms : forall fmt_float fmt_time parse_num parse_time,
+  (forall b r, parse_num b (fmt_float b r) = Some r) ->
+  (forall r, parse_time (fmt_time r) = Some r) ->
+  forall (s : jsch) (v : gval) (j : json),
+    rt_ok s v -> enc fmt_float fmt_time s v = Ok j -> validates parse_num parse_time s j = true.
+Proof. exact conforms. Qed.
+Print Assumptions C07_conforms.
